@@ -105,6 +105,10 @@ class Scenario:
         self.rs = None
         self.table_script = None
 
+    def veto_active(self):
+        """did the user's check_move veto anything since the last yield (or is a veto still pending)?"""
+        return any(v.n != getattr(v, "n_at_yield", 0) or v.n > 0 for _, v in self.vetoes)
+
     def controller(self, name):
         """at every yield"""
         rs = self.rs
@@ -119,6 +123,7 @@ class Scenario:
         for m, v in self.vetoes:
             r = rs.rand()
             v.n = 0 if r < 0.6 else (1 if r < 0.8 else (2 if r < 0.9 else 10**6))
+            v.n_at_yield = v.n
         # occasional pre-selection by the "user"
         from project import elementary_moves
 
